@@ -1014,6 +1014,10 @@ func c05UpForgery(r *Rec) {
 		r.Case("forgery/"+f.line(), true)
 		if a == b {
 			r.Stat("observed:up-preimage-equals-update_valset-preimage")
+			// the property's clause "signatures can never authorise a different call" is false here
+			// (recorded as known finding C05-upload-no-selector; the check reports it as KNOWN-FINDING)
+			r.Hit("cross_action_distinct", "up-preimage-overlap: an UploadSmartContract message whose (governance-supplied) bytecode is the first 92 bytes of an update_valset pre-image and whose id is the elected estimate has the SAME signing bytes as that update_valset message",
+				map[string]string{"update_valset": u.line(), "upload_smart_contract": f.line(), "digest": a})
 		} else {
 			r.Stat("observed:up-forgery-not-reproduced")
 		}
